@@ -35,6 +35,30 @@ class QBackend:
                 '==': '(Qeq_bool %(a)s %(b)s)', '!=': '(negb (Qeq_bool %(a)s %(b)s))'}[op] % {'a': a, 'b': b}
 
 
+class ZBackend:
+    ty = 'Z'
+
+    def const(self, v):
+        if isinstance(v, bool) or not isinstance(v, int):
+            raise Untranslatable('non-integer constant in integer arithmetic')
+        return '(%d)%%Z' % v
+
+    def binop(self, op, a, b):
+        if op == '/':
+            raise Untranslatable('true division in integer arithmetic')
+        return {'+': '(Z.add %s %s)', '-': '(Z.sub %s %s)', '*': '(Z.mul %s %s)'}[op] % (a, b)
+
+    def neg(self, a):
+        return '(Z.opp %s)' % a
+
+    def abs(self, a):
+        return '(Z.abs %s)' % a
+
+    def cmp(self, op, a, b):
+        return {'<': '(Z.ltb %(a)s %(b)s)', '<=': '(Z.leb %(a)s %(b)s)', '>': '(Z.ltb %(b)s %(a)s)',
+                '>=': '(Z.leb %(b)s %(a)s)', '==': '(Z.eqb %(a)s %(b)s)', '!=': '(negb (Z.eqb %(a)s %(b)s))'}[op] % {'a': a, 'b': b}
+
+
 class FloatBackend:
     ty = 'float'
 
